@@ -115,6 +115,8 @@ def handler_for(rng, cls, ids):
     b = rng.choice(acts)
     if cls in ("QPushButton", "QCheckBox"):
         return rng.choice([
+            ("onClicked", "function(): void { %s }" % a),          # "return type is ignored" warning
+            ("onReleased", "function(): void { %s; %s }" % (a, b)),
             ("onClicked", a),
             ("onClicked", "{ %s; %s }" % (a, b)),
             ("onToggled", "function(on: bool) { if (on) { %s } else { %s } }" % (a, b)),
@@ -123,7 +125,7 @@ def handler_for(rng, cls, ids):
     if cls == "QSpinBox":
         return rng.choice([("onEditingFinished", a), ("onEditingFinished", "{ if (%s.enabled) { %s } else { %s } }" % (ids[0][0], a, b))])
     if cls == "QLineEdit":
-        return rng.choice([("onReturnPressed", a), ("onTextEdited", "function(t: QString) { console.log(t) }")])
+        return rng.choice([("onEditingFinished", "function(): void { %s }" % a), ("onReturnPressed", a), ("onTextEdited", "function(t: QString) { console.log(t) }")])
     if cls == "QComboBox":
         return rng.choice([("onCurrentTextChanged", "function(t: QString) { %s }" % a), ("onEditTextChanged", "console.log(%s)" % _q(_s(rng)))])
     return None
@@ -144,6 +146,7 @@ def gen_doc(rng, min_widgets=2, max_widgets=5, want_dynamic=True):
         "comment": "",
         "widgets": [],
         "plant": None,
+        "import_version": rng.chance(0.25),
     }
     ndyn = 0
     for i, cls in ids:
@@ -166,7 +169,7 @@ def gen_doc(rng, min_widgets=2, max_widgets=5, want_dynamic=True):
                 if e:
                     w["props"].append([prop, e])
                     ndyn += 1
-        if want_dynamic and rng.chance(0.4):
+        if want_dynamic and rng.chance(0.5):
             h = handler_for(rng, cls, [x for x in ids if x[0] != i])
             if h:
                 w["handlers"].append(list(h))
@@ -192,7 +195,7 @@ def gen_doc(rng, min_widgets=2, max_widgets=5, want_dynamic=True):
 def render(doc):
     """-> (text, spans) where spans maps ("w", widget index, binding index) / ("plant",) /
     ("root", name) to (line, col_start, col_end), 1-based, end exclusive."""
-    lines = ["import qmluic.QtWidgets", ""]
+    lines = ["import qmluic.QtWidgets" + (" 6.2" if doc.get("import_version") else ""), ""]   # "import version is ignored" warning
     spans = {}
 
     def emit(indent, text, key=None):
